@@ -22,6 +22,10 @@ structure Cfg where
   maxiter : Nat             -- 128 in the code
   guard : Bool              -- in-memory path: raise on NaN/Inf likelihoods (and on "no likelihoods")
 
+/-- the number of prior samples the call may evaluate: `max_prior_samples`, and never more than the library holds
+(both code paths clamp: "never process more prior samples than the library holds") -/
+def Cfg.budget (c : Cfg) (N : Nat) : Nat := min (c.maxPrior.getD N) N
+
 /-- state at a normal exit of the loop -/
 structure LoopOut (α : Type) where
   blocks : List (Nat × Nat)   -- `(start, nProc)` of every round, in order
@@ -68,10 +72,9 @@ def loop (expf : α → α) (nonFinite : α → Bool) (guard : Bool) (req budget
 def iterativeSample (expf : α → α) (nonFinite : α → Bool) (llf : ρ → α) (lib : List (LibRow ρ α)) (c : Cfg)
     (idx : Option (List Nat)) (grow : Nat → Nat → Nat → Nat → Nat) (uus : List (List α)) :
     Except Err (Res ρ α) :=
-  let budget := c.maxPrior.getD lib.length
+  let budget := c.budget lib.length
   let init := c.initBatch.getD (c.growth * c.req)
-  if budget > lib.length then .error .bad       -- outside the modelled domain: `max_prior_samples ≤ |library|`
-  else if init > budget then .error .value      -- "Prior sample library not big enough!"
+  if init > budget then .error .value      -- "Prior sample library not big enough!"
   else
     let order := evalOrder budget idx
     match gather lib order with
